@@ -201,3 +201,33 @@ def memstream():
 
 def blob(n):
     return bytes(n)
+
+
+def forall(fn, *sorts):
+    """natively: checked over a window that covers every list index the harnesses use"""
+    import inspect
+
+    n = len(inspect.signature(fn).parameters)
+    import itertools
+
+    rng = range(-8, 72) if n == 1 else range(-4, 12)
+    return all(fn(*t) for t in itertools.product(rng, repeat=n))
+
+
+def exists(fn, *sorts):
+    import inspect
+    import itertools
+
+    n = len(inspect.signature(fn).parameters)
+    rng = range(-8, 72) if n == 1 else range(-4, 12)
+    return any(fn(*t) for t in itertools.product(rng, repeat=n))
+
+
+def choose(x, lo, hi):
+    if not (lo <= x <= hi):
+        raise Skip()
+    return x
+
+
+def psum_monotone(seq, strict=False):
+    return None
